@@ -183,7 +183,7 @@ ExportObs(r, x, nn) ==
         IF set.dd = <<>> THEN ~HasKey(f, ".dd")
         ELSE HasKey(f, ".dd") /\ Line(f, ".dd").v = x.dd),
      O("C15", "export.filesem" \o vt,
-        (x.mode = "A" /\ x.known /\ FileComplete(f)) =>
+        (x.mode = "A" /\ Strs(f, ".mode") = << "A" >> /\ x.known /\ FileComplete(f)) =>
            LET fs == FileSem(st.kind, n, x.order, f)
            IN  fs.st = "ok" /\ fs.roots = x.V) >>
 
